@@ -30,14 +30,19 @@ DIFF_DEFAULTS = 0x01
 MERGE_DESTRUCT = 0x01
 MERGE_DEFAULTS = 0x02
 MERGE_WITH_FLAGS = 0x04
-NEWPATH_UPDATE = 0x01
-NEWPATH_OUTPUT = 0x02
-NEWPATH_OPAQ = 0x04
+NEWPATH_OUTPUT = 0x01
+NEWPATH_UPDATE = 0x20
+NEWPATH_OPAQ = 0x40
 IMPLICIT_NO_STATE = 0x01
 CTX_ALL_IMPLEMENTED = 0x01
 CTX_NO_YANGLIBRARY = 0x04
 CTX_EXPLICIT_COMPILE = 0x80
 CTX_SET_PRIV_PARSED = 0x40
+
+
+import os
+from vlib import REPO
+TEST_MODULES = os.path.join(REPO, "tests", "modules", "yang")
 
 
 class Script:
@@ -48,8 +53,13 @@ class Script:
         self.cmds.append(" ".join(str(w) for w in words))
         return len(self.cmds) - 1
 
-    def ctx(self, c=0, opts=0):
+    def ctx(self, c=0, opts=0, searchdir=None):
+        if searchdir:
+            return self.add("ctx", "c%d" % c, opts, searchdir)
         return self.add("ctx", "c%d" % c, opts)
+
+    def load(self, name, c=0, rev="-", feats="-"):
+        return self.add("load", "c%d" % c, name, rev, feats)
 
     def mod(self, text, c=0, feats="-"):
         return self.add("mod", "c%d" % c, feats, hexs(text))
